@@ -170,6 +170,9 @@ def run_custom(rep, prop, only=None, harness_timeout=900, r=None):
 
 
 VERUS_TRUSTED = {
+    "div": ["extraction rules R1-R4 (visibility, anyhow->Error, with_context/log dropped); enums CCR/StateType extracted with #[derive(Clone, Copy)] added",
+            "external_body: Cpu::calc_state (cost seam; contract: result <= 14*count, internal cycles cost exactly count - what C19 proves of the real function)",
+            "the contracts of divxu_b/divxu_w state the manual's definition with the mathematical / and % of the operands named by the 4-bit fields"],
     "bus": ["extraction rules R1-R6 (verus/extract.py): visibility, anyhow->Error, with_context dropped, log dropped, ModuleManager link/message channel opaque",
             "external_body: Bus::notify_modules (write_registers has no access path to Bus), Bus::send_io_port_value (message seam)"],
     "irq": ["extraction rules R1-R6,R9", "external_body: Cpu::interrupt with the contract 'enters through the given vector once, leaves the queue alone' (its body: Kani harness c06_interrupt_entry)",
